@@ -141,6 +141,20 @@ theorem readRefsLoop_total : ∀ (cnt : Nat) (s : Bytes) (len : Nat), (readRefsL
         simp only
         exact ih _ _
 
+theorem readIndexBody_total (n : Int) (s : Bytes) (base : Nat) : (readIndexBody n s base).isPanic = false := by
+  unfold readIndexBody
+  split
+  · rfl
+  · rename_i h
+    rw [bind_ok _ _ _ (makeLen_pos _ n h)]
+    apply bind_total _ _ (readRefsLoop_total _ s base)
+    intro v _
+    obtain ⟨len, rest⟩ := v
+    simp only
+    split
+    · rfl
+    · split <;> rfl
+
 theorem readBAI_total' (s : Bytes) : (readBAI s).isPanic = false := by
   unfold readBAI
   apply bind_total _ _ (take?_total 4 s)
@@ -155,16 +169,56 @@ theorem readBAI_total' (s : Bytes) : (readBAI s).isPanic = false := by
     simp only
     split
     · rfl
-    · split
+    · exact readIndexBody_total _ _ _
+
+theorem take?_length (k : Nat) (s a b : Bytes) (h : take? k s = ok (a, b)) : a.length = k := by
+  unfold take? at h
+  split at h
+  · cases h
+  · cases h
+    rw [List.length_take]; omega
+
+theorem readTabix_total' (s : Bytes) : (readTabix s).isPanic = false := by
+  unfold readTabix
+  apply bind_total _ _ (take?_total 4 s)
+  intro v _
+  obtain ⟨magic, s1⟩ := v
+  simp only
+  split
+  · rfl
+  · apply bind_total _ _ (rdI32_total s1)
+    intro v _
+    obtain ⟨n, s2⟩ := v
+    simp only
+    split
+    · rfl
+    · apply bind_total _ _ (skip_total 24 s2)
+      intro s3 _
+      apply bind_total _ _ (rdI32_total s3)
+      intro v _
+      obtain ⟨lnm, s4⟩ := v
+      simp only
+      split
       · rfl
-      · rename_i h
-        rw [bind_ok _ _ _ (makeLen_pos _ n h)]
-        apply bind_total _ _ (readRefsLoop_total _ s2 8)
-        intro v _
-        obtain ⟨len, rest⟩ := v
+      · rename_i hl
+        rw [bind_ok _ _ _ (makeLen_pos _ lnm (by omega))]
+        apply bind_total _ _ (take?_total _ s4)
+        intro v hv
+        obtain ⟨names, s5⟩ := v
         simp only
+        have hlen := take?_length _ _ _ _ hv
+        have hidx : (indexInt "tabix.readTabixHeader:names[len(names)-1]" names ((names.length : Int) - 1)).isPanic = false := by
+          unfold indexInt
+          rw [if_neg (by omega)]
+          apply index_total
+          omega
+        apply bind_total _ _ hidx
+        intro last _
         split
         · rfl
-        · split <;> rfl
+        · rw [bind_ok _ _ _ (sliceTo_of_le _ names _ (by omega))]
+          split
+          · rfl
+          · exact readIndexBody_total _ _ _
 
 end Hts.Model.Decoders
